@@ -892,6 +892,63 @@ def merge_transforms_unit(ctx, u, G, rng, n):
                           unit=u.name, reproducer="see case.specs (harness.c08.build) nested in Transformed(StandardNormal)")
 
 
+def vmap_axes_unit(ctx):
+    """Vmap(bijection, in_axes=<pytree>) with parameter leaves mapped along a NON-leading axis (1, -1) and non-square leaves, mixed with
+    leaves mapped along axis 0 and broadcast leaves: by definition the bijection that applies to x[i] the wrapped bijection with
+    the i-th slices of the mapped parameters.  Oracle only (the model's Vmap maps parameters along axis 0).  (Seeded change C08d.)"""
+    f = fj()
+    fb, jnp, eqx = f["fb"], f["jnp"], f["eqx"]
+    from jax.tree_util import tree_map
+    from flowjax.wrappers import unwrap
+
+    u = ctx.unit("vmap-axes-unit", "Vmap with in_axes pytrees mapping parameter leaves along axes 0 / 1 / -1 (non-square leaves) vs the slice-by-slice "
+                                   "definition: declared shape, four methods, scalar log-det")
+    rng = ctx.rng
+    for rep in range(6 if ctx.quick else 40):
+        N, D = int(rng.integers(2, 5)), int(rng.integers(1, 4))
+        if N == D:
+            N += 1
+        loc_axis = [1, -1, 0][rep % 3]
+        scale_axis = [None, 1, 0, -1][(rep // 3) % 4]
+        inner = fb.Affine(jnp.zeros(D), jnp.ones(D))
+        locs = rng.integers(-4, 5, (N, D)).astype(float)
+        scales = 2.0 ** rng.integers(-2, 3, (N, D))
+        put = lambda a, ax: jnp.asarray(a if ax == 0 else a.T)  # noqa: E731  (N, D) for axis 0, (D, N) for axis 1 / -1
+        stacked = eqx.tree_at(lambda b: b.loc, inner, put(locs, loc_axis))
+        if scale_axis is not None:
+            stacked = eqx.tree_at(lambda b: b.scale, stacked, put(scales, scale_axis))  # plain array replaces the reparameterised scale
+        else:
+            stacked = eqx.tree_at(lambda b: b.scale, stacked, jnp.asarray(scales[0]))
+        in_axes = tree_map(lambda _: None, unwrap(stacked))
+        in_axes = eqx.tree_at(lambda b: b.loc, in_axes, loc_axis, is_leaf=lambda l: l is None)
+        if scale_axis is not None:
+            in_axes = eqx.tree_at(lambda b: b.scale, in_axes, scale_axis, is_leaf=lambda l: l is None)
+        x = rng.integers(-3, 4, (N, D)).astype(float)
+        u.count((N, D, loc_axis, scale_axis, x.tolist()), tag=f"loc{loc_axis},scale{scale_axis}")
+        errs = []
+        try:
+            vm = fb.Vmap(stacked, in_axes=in_axes)
+            if tuple(vm.shape) != (N, D):
+                errs.append(f"declares shape {tuple(vm.shape)}, the definition gives {(N, D)}")
+            for m in METHODS:
+                got = getattr(vm, m)(jnp.asarray(x))
+                sc = scales if scale_axis is not None else np.broadcast_to(scales[0], (N, D))
+                y = x * sc + locs if "transform" in m else (x - locs) / sc
+                ld = float(np.sum(np.log(np.abs(sc)))) * (1 if "transform" in m else -1)
+                gy = np.asarray(got[0] if isinstance(got, tuple) else got, dtype=float)
+                if gy.shape != (N, D) or not np.array_equal(gy, y):
+                    errs.append(f"{m} returns {gy.tolist()} but slice by slice the definition gives {y.tolist()}")
+                if isinstance(got, tuple) and (np.ndim(got[1]) != 0 or not close_ld(float(got[1]), ld)):
+                    errs.append(f"{m} log-det {np.asarray(got[1]).tolist()} but the sum over slices is {ld}")
+        except Exception as e:  # noqa: BLE001
+            errs.append(f"raised {type(e).__name__}: {str(e)[:100]}")
+        if errs:
+            ctx.violation(sig=f"vmap-axes:loc{loc_axis}:scale{scale_axis}", what=f"Vmap(Affine of shape ({D},), loc mapped along axis {loc_axis} [{N} slices], scale "
+                          f"{'broadcast' if scale_axis is None else 'mapped along axis ' + str(scale_axis)}): " + "; ".join(errs[:3]),
+                          case=dict(unit="vmap-axes-unit", N=N, D=D, loc_axis=loc_axis, scale_axis=scale_axis, loc=locs.tolist(), scale=scales.tolist(), x=x.tolist()),
+                          found_input=True, unit=u.name, broken="vmap-axes-unit (definition of Vmap with an in_axes pytree)", reproducer=REPRO)
+
+
 def run(ctx):
     fj()
     rng = ctx.rng
@@ -960,6 +1017,7 @@ def run(ctx):
         "a Partial index holds at most one array (int or bool, 1-d) and no python int beside it; int-array positions distinct",
         "Scan / mapped Vmap children are the parameter slices of one stacked module (same structure)",
     ]
+    vmap_axes_unit(ctx)
 
 
 def replay(ctx, rep):
